@@ -538,6 +538,80 @@ impl<'s, 'a> Gen<'s, 'a> {
     }
 }
 
+impl<'s, 'a> Gen<'s, 'a> {
+    /// Scale features (one program in 10 gets one): constructs whose size or depth is far beyond
+    /// the usual - a long operator chain, a long else-if chain, deeply nested loops, a long
+    /// statement list. Operands, conditions and bodies are leaves.
+    fn add_scale_feature(&mut self) {
+        if self.prog.procs.is_empty() {
+            return;
+        }
+        let p = self.s.below(self.prog.procs.len());
+        let leaf = self.cfg.max_depth;
+        let simple = |g: &mut Self| match g.s.below(3) {
+            0 => match g.var_of_type(p, &Ty::Int, leaf) {
+                Some(v) => Stmt::Assign(v, g.int_expr(p, leaf)),
+                None => Stmt::Empty,
+            },
+            1 => g.call(p, leaf),
+            _ => Stmt::Empty,
+        };
+        let mut new: Vec<Stmt> = Vec::new();
+        match self.s.below(4) {
+            0 => {
+                // v := v + x + 1 + ... (33-64 operators, left-nested)
+                let k = 33 + self.s.below(32);
+                let mut e = self.int_expr(p, leaf);
+                for _ in 0..k {
+                    let op = ["+", "-", "*", "/"][self.s.below(4)];
+                    let r = self.int_expr(p, leaf);
+                    e = Expr::Bin(op, Box::new(e), Box::new(r));
+                }
+                new.push(match self.var_of_type(p, &Ty::Int, leaf) {
+                    Some(v) => Stmt::Assign(v, e),
+                    None if !self.is_local_name(p, "printi") => Stmt::Call("printi".into(), Bind::BuiltinProc(0), vec![e]),
+                    None => Stmt::Empty,
+                });
+            }
+            1 => {
+                // if (c) S else if (c) S ... (29-40 branches)
+                let k = 29 + self.s.below(12);
+                let mut chain: Option<Box<Stmt>> = if self.s.chance(1, 2) { Some(Box::new(simple(self))) } else { None };
+                for _ in 0..k {
+                    let c = self.cond(p, leaf);
+                    let body = if self.s.chance(1, 2) { Stmt::Block(vec![simple(self)]) } else { simple(self) };
+                    chain = Some(Box::new(Stmt::If(c, Box::new(body), chain)));
+                }
+                new.push(*chain.unwrap());
+            }
+            2 => {
+                // 33-40 nested loops / blocks
+                let k = 33 + self.s.below(8);
+                let mut inner = simple(self);
+                for i in 0..k {
+                    inner = if i % 2 == 0 {
+                        let c = self.cond(p, leaf);
+                        Stmt::While(c, Box::new(inner))
+                    } else {
+                        Stmt::Block(vec![inner])
+                    };
+                }
+                new.push(inner);
+            }
+            _ => {
+                // a statement list of 17-48 statements
+                let k = 17 + self.s.below(32);
+                for _ in 0..k {
+                    new.push(simple(self));
+                }
+            }
+        }
+        let body = &mut self.prog.procs[p].body;
+        let at = self.s.below(body.len() + 1);
+        body.splice(at..at, new);
+    }
+}
+
 pub fn anon_creator(proc: &str, name: &str) -> String {
     format!("<anon:{}.{}>", proc, name)
 }
@@ -581,6 +655,9 @@ pub fn gen_prog(s: &mut Src, cfg: &GenCfg) -> Prog {
         let ns = g.s.below(cfg.max_stmts + 1);
         let body = (0..ns).map(|_| g.stmt(p, 0)).collect();
         g.prog.procs[p].body = body;
+    }
+    if g.s.chance(1, 10) {
+        g.add_scale_feature();
     }
     normalize_prog(g.prog)
 }
